@@ -191,9 +191,7 @@ class Decider:
 
     def __init__(self, constraints, timeout_ms: int = 20000, params: dict | None = None):
         self.constraints = list(constraints)
-        # record mode (tools/record_known_inputs.sh) triples the budget, so that a query that is 'sat' within the normal
-        # budget on a quiet machine is not missed as 'unknown' while the known-input ledger is recorded on a busy one
-        self.timeout_ms = timeout_ms * (3 if os.environ.get("VERIF_RECORD") == "1" else 1)
+        self.timeout_ms = timeout_ms
         self.queries = 0
         self.seconds = 0.0
         self.params = params  # name -> z3 Real: enables the counterexample-hunting pre-pass of differ()
